@@ -27,12 +27,18 @@ def cell_desc(draw, lo=5.0, hi=9.0, triclinic=True):
 
 @st.composite
 def atoms_desc(draw, min_atoms=2, max_atoms=8, species=None, extra_arrays=True, constraints=("FixAtoms", "FixCom"),
-               pbc_choices=((True, True, True), (True, True, False), (False, False, False)), triclinic=True, cell=None):
+               pbc_choices=((True, True, True), (True, True, False), (False, False, False)), triclinic=True, cell=None, separated=False):
     n = draw(st.integers(min_atoms, max_atoms))
     sp = species or draw(st.lists(st.sampled_from(SPECIES), min_size=1, max_size=3, unique=True))
     symbols = [draw(st.sampled_from(sp)) for _ in range(n)]
     cellm = cell if cell is not None else draw(cell_desc(triclinic=triclinic))
-    frac = [[draw(fl(0.05, 0.95)) for _ in range(3)] for _ in range(n)]
+    if separated:
+        # distinct sites of a 3x3x3 grid plus a small jitter: no two atoms coincide (needed by EMT / LJ, whose
+        # energies are not finite for coinciding atoms), by construction rather than by rejection
+        sites = draw(st.lists(st.integers(0, 26), min_size=n, max_size=n, unique=True))
+        frac = [[((s // 9) + 0.5 + draw(fl(-0.15, 0.15))) / 3.0, (((s // 3) % 3) + 0.5 + draw(fl(-0.15, 0.15))) / 3.0, ((s % 3) + 0.5 + draw(fl(-0.15, 0.15))) / 3.0] for s in sites]
+    else:
+        frac = [[draw(fl(0.05, 0.95)) for _ in range(3)] for _ in range(n)]
     pos = (np.array(frac) @ np.array(cellm)).tolist() if n else []
     desc = {"symbols": symbols, "positions": pos, "cell": cellm, "pbc": list(draw(st.sampled_from(list(pbc_choices)))), "arrays": {}, "constraints": []}
     if extra_arrays and n:
